@@ -318,7 +318,7 @@ type runLine struct {
 	Ex   bool    `json:"ex"`
 }
 
-const caseLimit = 20 * time.Second
+const caseLimit = 10 * time.Second
 
 // guarded runs call() on its own goroutine; a panic of the calling goroutine
 // is the observation "FAIL". done is closed when the call is over.
